@@ -39,6 +39,10 @@ def reconn_scenarios(tier, rng):
     for j in range(4 if tier == "quick" else 40):
         sc = S("ka-h%d" % j, [P(rng.choice((0, 1, 2)))], ["conn"], [], opts=dict(opts, quietMs=300))
         out.append(sc)
+    # the application pings too (Client.Ping is part of the public interface): PINGRESPs carry no identifier,
+    # and every ping of the keep-alive loop must still get its response while the broker answers every PINGREQ
+    for j in range(3 if tier == "quick" else 20):
+        out.append(S("ka-app%d" % j, [P(1)], ["conn"], [], opts=dict(opts, pingMs=5, quietMs=300, hammer=True, hammerSleepUs=3000, deadlineMs=1200)))
     for j in range(0 if tier == "quick" else 60):
         fl = [{"p": "PINGREQ", "n": rng.randint(1, 4), "o": rng.choice(("dropAck", "dropReq"))}]
         if rng.random() < 0.5:
